@@ -186,7 +186,7 @@ def run_case(c):
     sp = c['sp']
     arg = sp.replace('/abs/x', B + '/x')
     if c.get('name'):
-        arg = './' + c['name']
+        arg = './' + c['name'] if not c['name'].startswith('@') else c['name']          # (an @name is given bare, the way a user would type it)
     argv = ['trash-put']
     stdin = None
     env = dict(W.env)
